@@ -1,6 +1,10 @@
 //! The uniform `api::{SupervisedEstimator, UnsupervisedEstimator, Predictor, Transformer}` entry points must
 //! behave exactly like the inherent `fit` / `predict` / `transform` of every estimator (generic code such as
 //! cross-validation only ever uses the traits). One family per property, called from the property's monitor.
+//!
+//! The same cases also drive the call sequence fit → store → restore → use: a model that went through a
+//! serialisation round trip (bincode bytes, or a serde_json::Value, both exact for floats) has to give the same
+//! outputs as the fitted object it was stored from, on rows it has never seen.
 
 use crate::refla::Mat;
 use crate::runner::Case;
@@ -36,6 +40,35 @@ fn same(a: &[f64], b: &[f64]) -> bool {
     a.len() == b.len() && a.iter().zip(b.iter()).all(|(x, y)| x == y || (x.is_nan() && y.is_nan()))
 }
 
+/// fit → store → restore → use: outputs of the restored model equal those of the fitted one
+fn restored_same<M: serde::Serialize + serde::de::DeserializeOwned>(c: &mut Case, name: &str, m1: &M, o1: &[f64], run: impl Fn(&M) -> Result<Vec<f64>, smartcore::error::Failed>) {
+    let json = c.rng.bool(0.5);
+    let fmt = if json { "json-value" } else { "bincode" };
+    c.bucket(&format!("sequence:fit-store-restore-use/{}", fmt));
+    let back: Option<Result<M, String>> = c.must(&format!("{}::restore", name), || {
+        if json {
+            serde_json::to_value(m1).and_then(serde_json::from_value).map_err(|e| format!("serde_json value round trip: {}", e))
+        } else {
+            crate::restored(m1, false)
+        }
+    });
+    match back {
+        Some(Ok(m2)) => match c.must(&format!("{}::use(restored)", name), || run(&m2)) {
+            Some(Ok(o2)) => {
+                c.check(&format!("sequence.restored=fitted:{}/{}", name, fmt), same(o1, &o2), name, || format!("fitted model gives {:?}, its restored copy {:?}", o1, o2));
+            }
+            Some(Err(e)) => {
+                c.check(&format!("sequence.restored=fitted:{}/{}", name, fmt), false, name, || format!("the restored copy returned Err({})", e));
+            }
+            None => {}
+        },
+        Some(Err(msg)) => {
+            c.check(&format!("sequence.restorable:{}/{}", name, fmt), false, name, || msg.clone());
+        }
+        None => {}
+    }
+}
+
 /// inherent predict vs Predictor::predict on the same model (and on a model fitted through the trait)
 macro_rules! supervised {
     ($c:expr, $name:expr, $E:ty, $params:expr, $x:expr, $y:expr, $xq:expr, trait_fit) => {{
@@ -43,6 +76,7 @@ macro_rules! supervised {
         if let Some(Ok(m1)) = $c.must(&format!("{}::fit", $name), || <$E>::fit($x, $y, p.clone())) {
             if let (Some(Ok(o1)), Some(Ok(o2))) = ($c.must(&format!("{}::predict", $name), || m1.predict($xq)), $c.must(&format!("{}::predict(trait)", $name), || Predictor::predict(&m1, $xq))) {
                 $c.check(&format!("api.predictor=inherent:{}", $name), same(&o1, &o2), $name, || format!("inherent predict {:?}, api::Predictor::predict {:?}", o1, o2));
+                restored_same($c, $name, &m1, &o1, |m| m.predict($xq));
                 if let Some(Ok(m2)) = $c.must(&format!("{}::fit(trait)", $name), || <$E as SupervisedEstimator<DM, Vec<f64>, _>>::fit($x, $y, p.clone())) {
                     if let Some(Ok(o3)) = $c.must(&format!("{}::predict(trait-fitted)", $name), || Predictor::predict(&m2, $xq)) {
                         $c.check(&format!("api.supervised-estimator=inherent:{}", $name), same(&o1, &o3), $name, || format!("inherent fit+predict {:?}, api::SupervisedEstimator::fit + api::Predictor::predict {:?}", o1, o3));
@@ -57,6 +91,7 @@ macro_rules! supervised {
         if let Some(Ok(m1)) = $c.must(&format!("{}::fit", $name), || <$E>::fit($x, $y, p.clone())) {
             if let (Some(Ok(o1)), Some(Ok(o2))) = ($c.must(&format!("{}::predict", $name), || m1.predict($xq)), $c.must(&format!("{}::predict(trait)", $name), || Predictor::predict(&m1, $xq))) {
                 $c.check(&format!("api.predictor=inherent:{}", $name), same(&o1, &o2), $name, || format!("inherent predict {:?}, api::Predictor::predict {:?}", o1, o2));
+                restored_same($c, $name, &m1, &o1, |m| m.predict($xq));
                 $c.nontrivial();
             }
         }
@@ -124,6 +159,7 @@ pub fn case(c: &mut Case, pid: &str) {
             if let Some(Ok(m1)) = c.must("KMeans::fit", || KMeans::<f64>::fit(&x, p.clone())) {
                 if let (Some(Ok(o1)), Some(Ok(o2))) = (c.must("KMeans::predict", || m1.predict(&xq)), c.must("KMeans::predict(trait)", || Predictor::predict(&m1, &xq))) {
                     c.check("api.predictor=inherent:KMeans", same(&o1, &o2), "KMeans", || format!("inherent predict {:?}, api::Predictor::predict {:?}", o1, o2));
+                    restored_same(c, "KMeans", &m1, &o1, |m| m.predict(&xq));
                     c.nontrivial();
                 }
             }
@@ -138,6 +174,7 @@ pub fn case(c: &mut Case, pid: &str) {
             if let Some(Ok(m1)) = c.must("DBSCAN::fit", || DBSCAN::fit(&x, p.clone())) {
                 if let (Some(Ok(o1)), Some(Ok(o2))) = (c.must("DBSCAN::predict", || m1.predict(&xq)), c.must("DBSCAN::predict(trait)", || Predictor::predict(&m1, &xq))) {
                     c.check("api.predictor=inherent:DBSCAN", same(&o1, &o2), "DBSCAN", || format!("inherent predict {:?}, api::Predictor::predict {:?}", o1, o2));
+                    restored_same(c, "DBSCAN", &m1, &o1, |m| m.predict(&xq));
                     c.nontrivial();
                 }
             }
@@ -149,6 +186,7 @@ pub fn case(c: &mut Case, pid: &str) {
                 if let (Some(Ok(o1)), Some(Ok(o2)), Some(Ok(o3))) = (c.must("PCA::transform", || m1.transform(&xq)), c.must("PCA::transform(trait)", || Transformer::transform(&m1, &xq)), c.must("PCA::transform(trait-fitted)", || Transformer::transform(&m2, &xq))) {
                     let (a, b, d) = (crate::from_m(&o1), crate::from_m(&o2), crate::from_m(&o3));
                     c.check("api.transformer=inherent:PCA", a.r == b.r && same(&a.d, &b.d), "PCA", || "api::Transformer::transform differs from the inherent transform".to_string());
+                    restored_same(c, "PCA", &m1, &a.d, |m| m.transform(&xq).map(|t| crate::from_m(&t).d));
                     c.check("api.unsupervised-estimator=inherent:PCA", a.r == d.r && same(&a.d, &d.d), "PCA", || "a model fitted through api::UnsupervisedEstimator transforms differently".to_string());
                     c.nontrivial();
                 }
@@ -160,6 +198,7 @@ pub fn case(c: &mut Case, pid: &str) {
                     if let (Some(Ok(o1)), Some(Ok(o2)), Some(Ok(o3))) = (c.must("SVD::transform", || m1.transform(&xq)), c.must("SVD::transform(trait)", || Transformer::transform(&m1, &xq)), c.must("SVD::transform(trait-fitted)", || Transformer::transform(&m2, &xq))) {
                         let (a, b, d) = (crate::from_m(&o1), crate::from_m(&o2), crate::from_m(&o3));
                         c.check("api.transformer=inherent:SVD", a.r == b.r && same(&a.d, &b.d), "SVD", || "api::Transformer::transform differs from the inherent transform".to_string());
+                        restored_same(c, "SVD", &m1, &a.d, |m| m.transform(&xq).map(|t| crate::from_m(&t).d));
                         c.check("api.unsupervised-estimator=inherent:SVD", a.r == d.r && same(&a.d, &d.d), "SVD", || "a model fitted through api::UnsupervisedEstimator transforms differently".to_string());
                     }
                 }
